@@ -83,13 +83,25 @@ Fixpoint processed (a : args) (evs : list ev) : list ev :=
 
 Definition diag_case := (args * list ev * list ev * observed)%type.
 
+(* "each emitted diagnostic adds its weight": the diagnostics that count are the ones that are emitted.  Of the events a
+   run processes, the ones visible at the chosen warning level (and not turned into the fatal line of a strict-mode
+   escalation) are printed, each once, in order - so what is counted and what the user can see agree *)
+Definition is_fatal_level (l : level) : bool := match l with LFatal => true | _ => false end.
+Definition line_of (d : dlevel) : level :=
+  match d with DInfo => LInfo | DWarning => LWarning | DError => LError | DFatal => LFatal end.
+Definition expected_lines (a : args) (evs : list ev) : list level :=
+  map (fun e => line_of (e_level e)) (filter (fun e => visible (a_warning_level a) e && negb (escalates_b a e) && negb (is_fatal e)) (processed a evs)).
+Definition printed_as_counted (a : args) (evs : list ev) (o : observed) : bool :=
+  levels_eqb (filter (fun l => negb (is_fatal_level l) && negb (level_eqb l LRattr)) (o_log o)) (expected_lines a evs).
+
 (* C15 judged on what rattr itself did *)
 Definition check_C15 (c : diag_case) : bool :=
   let '(a, evA, evS, o) := c in
   let evs := evA ++ map at_nofile evS in
   let p := processed a evs in
   (o_exit o =? (if spec_exit1b a evs then 1 else 0))
-  && (o_target o =? sum_at InTarget p) && (o_imports o =? sum_at InImport p) && (o_simpl o =? sum_at NoFile p).
+  && (o_target o =? sum_at InTarget p) && (o_imports o =? sum_at InImport p) && (o_simpl o =? sum_at NoFile p)
+  && printed_as_counted a evs o.
 
 (* C16: two observations of the same program under options that differ only in verbosity *)
 Fixpoint subseqb (x y : list level) : bool :=
